@@ -9,6 +9,7 @@ seeds=${@:-$(ls -d /verif/seeded/*/ | xargs -n1 basename)}
 R=/tmp/matrix_repo; V=/tmp/matrix_verif
 rm -rf $R $V; mkdir -p "$out"
 git -C /repo worktree add -f --detach $R HEAD >/dev/null 2>&1 || exit 2
+cp /repo/Cargo.lock $R/ 2>/dev/null
 rsync -a --exclude .git --exclude replays /verif/ $V/
 sed -i "s|path = \"/repo|path = \"$R|g" $V/harness/Cargo.toml
 sed -i "s|^REPO = \"/repo\"|REPO = \"$R\"|" $V/vlib.py
